@@ -4,14 +4,34 @@
    the program ran to its end and no goroutine of the library survived Close. *)
 EXTENDS Integers, Sequences, FiniteSets, TLC, Json, IOUtils
 Trace == ndJsonDeserialize(IOEnv.VERIF_TRACE)
-VARIABLES l
-Init == l = 1
-Accept(e) == IF e.a \in {"reset", "pre", "wire"} THEN TRUE
+VARIABLES l, sent
+Init == l = 1 /\ sent = <<>>
+\* free-running retransmission integrity (C04 under real concurrency): a packet the chain injects on the media SSRC with the
+\* media payload type is a retransmission and must be identical to the application packet that went out with that number;
+\* with RTX (SSRC + 1000, payload type 97) the original number is the 2-byte prefix and the rest is the original payload
+Key(p) == <<p.ssrc, p.seq>>
+SameMedia(p, q) == p.pl = q.pl /\ p.ts = q.ts /\ p.m = q.m /\ p.csrc = q.csrc
+RetxOk(e) ==
+  IF e.t # "rtp" \/ e.app \/ e.failed THEN TRUE
+  ELSE IF e.pkt.pt = 96 /\ e.pkt.ssrc = e.s
+       THEN Key(e.pkt) \in DOMAIN sent => sent[Key(e.pkt)] = e.pkt
+  ELSE IF e.pkt.pt = 97 /\ e.pkt.ssrc = e.s + 1000 /\ Len(e.pkt.pl) >= 2
+       THEN LET osn == e.pkt.pl[1] * 256 + e.pkt.pl[2]  k == <<e.s, osn>> IN
+            k \in DOMAIN sent => (SubSeq(e.pkt.pl, 3, Len(e.pkt.pl)) = sent[k].pl /\ e.pkt.ts = sent[k].ts /\ e.pkt.m = sent[k].m)
+  ELSE TRUE
+Accept(e) == IF e.a \in {"reset", "pre"} THEN TRUE
+             ELSE IF e.a = "wire" THEN RetxOk(e)
              ELSE IF e.a = "end" THEN ~e.aborted /\ e.leaked = 0
              \* no lost update: the statistics counters equal the number of completed writes / reads of that SSRC
              ELSE IF e.a = "stats" THEN e.skipped \/ (e.n = e.nums[1] /\ e.len = e.nums[2])
              ELSE ~e.blocked /\ e.panic = ""
+Step(e) == IF e.a = "reset" THEN <<>>
+           ELSE IF e.a = "wire" /\ e.t = "rtp" /\ e.app /\ ~e.failed /\ ~e.pkt.p
+                   /\ (e.pkt.seq \in 1000 .. 1060 \/ e.pkt.seq \in 30000 .. 30010)    \* the numbers the programs ask to be retransmitted
+                THEN [k \in DOMAIN sent \cup {Key(e.pkt)} |-> IF k = Key(e.pkt) THEN e.pkt ELSE sent[k]]
+           ELSE sent
 Next == /\ l <= Len(Trace)
+        /\ sent' = Step(Trace[l])
         /\ IF Accept(Trace[l]) THEN l' = l + 1
            ELSE PrintT(<<"MISMATCH", l, "event", Trace[l].a>>) /\ l' = l + 1
 HW == TLCSet(1, IF TLCGet(1) < l THEN l ELSE TLCGet(1))
